@@ -196,6 +196,12 @@ def check(prog, run):
     run.rule("R4", "duration / composition-offset tables carry every per-sample value exactly: a run is extended only on exact equality, otherwise (1, value) is appended (C03.R6 instances) - no clamping or merging of the written deltas")
     from . import c03
     c03.rle_rule(prog, run, "R4")
+    run.rule("R5", "the 64-bit base decode time of a fragment holds the value the input implies: the decode time of the fragment's own first sample (minus a write-once stream constant at most), not an estimate, clamp or function of earlier fragments")
+    from . import c11, common
+    try:
+        c11.tfdt_rule(common.Ctx(prog), prog.lib, run, "R5", strict=True)
+    except Exception as e:
+        run.bad("R5", "anchor flush_segment", "cannot derive the base decode time (fail closed): %s" % e)
     u = prog.lib
     g = mir.Graph(u)
     st = mir.Stores(g)
